@@ -2,6 +2,23 @@
 open Conv
 let list_of arg = if arg = "-" then [] else Stdlib.List.map str_of_hex (Stdlib.String.split_on_char ',' arg)
 let () =
+  let decide = function
+    | [host; uri; dflt; subs] ->
+      let h = if host = "-" then None else Some (str_of_hex host) in
+      let default = { Routing.sa_host = [n_of_int 42]; Routing.sa_routes = list_of dflt } in
+      let subapps =
+        if subs = "-" then []
+        else Stdlib.List.map (fun s ->
+            match Stdlib.String.split_on_char ':' s with
+            | [hh; rs] -> { Routing.sa_host = str_of_hex hh; Routing.sa_routes = list_of rs }
+            | _ -> failwith "subapp") (Stdlib.String.split_on_char '|' subs) in
+      (match Routing.get_handler subapps default h (str_of_hex uri) with
+       | Some (Routing.InSub (i, j)) -> Printf.sprintf "sub:%d:%d" (int_of_nat i) (int_of_nat j)
+       | Some (Routing.InDefault j) -> Printf.sprintf "def:%d" (int_of_nat j)
+       | None -> "none")
+    | _ -> "BADARGS" in
+  (* call_websocket_handler applies the same rule over websocket_routes *)
+  register "wsroute" decide;
   register "route" (function
     | [host; uri; dflt; subs] ->
       let h = if host = "-" then None else Some (str_of_hex host) in
